@@ -404,13 +404,9 @@ impl Sched {
             }
             let enabled: Vec<usize> = (0..g.threads.len()).filter(|&t| Self::enabled(&g, t)).collect();
             if enabled.is_empty() {
-                g.abort = true;
-                self.cv.notify_all();
                 return "deadlock";
             }
             if step >= max_steps {
-                g.abort = true;
-                self.cv.notify_all();
                 return "limit";
             }
             let k = choose(&enabled, step, &g);
